@@ -12,12 +12,16 @@ EXTENDS ErrContract, IOUtils
 
 Tr == ndJsonDeserialize(IOEnv.TRACE)
 
+\* follow-up probe of a persistent object (the shared generator): after the call - failed or not - the object is in the
+\* state its header promises (absent after a failed creation, creatable again, valid exactly between Create and Close)
+ProbeOk(r) == ("probe" \in DOMAIN r) => r.probe = 1
 FaultOk(r) == /\ (r.failed > 0) => (r.rc # 0)
               /\ (r.failed = 0) => (r.rc = 0)
               /\ r.live = 0
+              /\ ProbeOk(r)
 
 LineOk(r) ==
-  CASE r.op = "sweep" -> r.fn \in DrivenFns /\ r.called /\ E1(r.fn, r.a, r.rc, r.touched) /\ r.live = 0
+  CASE r.op = "sweep" -> r.fn \in DrivenFns /\ r.called /\ E1(r.fn, r.a, r.rc, r.touched) /\ r.live = 0 /\ ProbeOk(r)
     [] r.op = "fault" -> r.fn \in DrivenFns /\ r.called /\ FaultOk(r)
     [] r.op = "auth"  -> r.fn \in DrivenFns /\ r.called /\ r.tamper \in Contract(r.fn).tamper
                          /\ E2(r.fn, r.rc, r.pre, r.post, r.plain) /\ r.live = 0
